@@ -70,6 +70,11 @@ pub async fn handle_udp_over_tcp(stream: Arc<Stream>) -> Result<()> {
         }
     };
     udp_span.record("target", field::display(target_addr));
+    #[cfg(feature = "verif")]
+    crate::verif::emit(crate::verif::Event::UdpTarget {
+        stream: stream_id,
+        addr: target_addr,
+    });
 
     tracing::debug!("[UDP] Target UDP address: {}", target_addr);
 
